@@ -5,6 +5,8 @@ import abc
 
 from numpy.random import choice
 
+from jaqalpaq.error import JaqalError
+
 from jaqalpaq.core.result import ExecutionResult, Readout
 from jaqalpaq.core.result import ProbabilisticSubcircuit
 from jaqalpaq.core.algorithm.walkers import TraceVisitor, DiscoverSubcircuits
@@ -45,10 +47,12 @@ class AbstractBackend:
 
         registers = circ.fundamental_registers()
 
+        if len(registers) == 0:
+            raise JaqalError("Cannot execute a circuit without a register.")
         try:
             (register,) = registers
         except ValueError:
-            raise NotImplementedError("Multiple fundamental registers unsupported.")
+            raise JaqalError("Multiple fundamental registers unsupported.")
 
         return register.size
 
